@@ -191,3 +191,34 @@ Proof.
   eapply cis_loop_closed in E0; eauto.
   split; [rewrite Ec, app_length; cbn; lia|]. intros p x Hs Hp _. lia.
 Qed.
+
+(* ---------------------------------------------------------------- children first *)
+Lemma find_map_complete : forall idx l k v, nth_error l k = Some (CCloneMap idx v) -> exists v', find_map idx l = Some v'.
+Proof.
+  induction l as [|c l IH]; intros [|k] v H; cbn in H; try discriminate.
+  - inversion H; subst. cbn. rewrite Nat.eqb_refl. eauto.
+  - cbn. destruct c; try (eapply IH; eauto).
+    destruct (orig =? idx); eauto.
+Qed.
+
+(* In the copy loop, when position [i] of the index list is being rewritten, an address that is queued
+   at a later position of the list has already been given a CloneMap cell, so looking it up succeeds:
+   together with the closure lemma (the kids of the cell queued at [i] are queued later) this is
+   "copies are made children-first, so every lookup succeeds". *)
+Theorem lookup_of_later_item_succeeds : forall h0 c0 o ret ds sI i s k q,
+  Inv h0 c0 o ret ds sI (S i) s -> i < q -> q < c0 -> c0 <= dsize s ->
+  nth_error h0 q = Some (CCloneItem k) ->
+  exists k', lookup s (ds + S i) (ds + c0) k = Ok k'.
+Proof.
+  intros h0 c0 o ret ds sI i s k q (HB & _ & _ & Hmp) Hiq Hq Hsz Hn.
+  destruct HB as (Hr & Hd & Hlen & _ & _).
+  destruct (Hmp q k ltac:(lia) Hq Hn) as [new Hnew].
+  unfold lookup, lookup_opt. rewrite Hr, Hd.
+  destruct (k <? ret); [eexists; reflexivity|].
+  replace (ds + c0 <? ds + S i) with false by (symmetry; apply Nat.ltb_ge; lia).
+  replace (ds + dsize s <? ds + c0) with false by (symmetry; apply Nat.ltb_ge; lia).
+  replace (ds + S i - ds) with (S i) by lia. replace (ds + c0 - ds) with c0 by lia.
+  assert (Hin : nth_error (firstn (c0 - S i) (skipn (S i) (cells s))) (q - S i) = Some (CCloneMap k new)).
+  { rewrite nth_error_firstn_lt by lia. rewrite nth_error_skipn'. replace (S i + (q - S i)) with q by lia. exact Hnew. }
+  destruct (find_map_complete _ _ _ _ Hin) as [v' Hv]. rewrite Hv. eexists. reflexivity.
+Qed.
